@@ -345,7 +345,7 @@ func ruleC10CteReentry(c *Ctx) {
 	c.Fn(key)
 	c.Anchor("CTE thunk", key+" "+c.P.Pos(thunk.Pos()))
 	regKey := NewTB().Of(reg.Key).String()
-	paths, err := WalkFunc(thunk, WalkCfg{MaxVisits: 1})
+	paths, err := WalkFunc(thunk, WalkCfg{MaxVisits: 1, Bind: bindFreeVars(regClosure(reg))})
 	if err != nil {
 		c.Unknown("c10.cte-reentry", key, c.P.Pos(thunk.Pos()), err.Error())
 		return
